@@ -25,6 +25,7 @@ import (
 	"strings"
 	"sync"
 	"testing/fstest"
+	"time"
 
 	"github.com/open-policy-agent/opa/v1/ast"
 	"github.com/open-policy-agent/opa/v1/rego"
@@ -959,9 +960,11 @@ func main() {
 	}
 	results := make([]CaseOut, len(jobs))
 	loads := make([]loaded, len(jobs))
+	tLoad := time.Now()
 	for i := range jobs {
 		loads[i] = e.loadCase(&jobs[i].in)
 	}
+	fmt.Fprintf(os.Stderr, "c19: %d configurations loaded one after the other in %s\n", len(jobs), time.Since(tLoad).Round(time.Millisecond))
 	var wg sync.WaitGroup
 	ch := make(chan int, 256)
 	for w := 0; w < runtime.NumCPU(); w++ {
